@@ -22,16 +22,6 @@ impl MemoryArea {
 }
 
 impl ModuleTag {
-//@extract multiboot2/src/module.rs :: impl ModuleTag :: fn start_address
-//@  ret r
-//@  spec:
-//@    ensures r == self.mod_start,
-//@end
-//@extract multiboot2/src/module.rs :: impl ModuleTag :: fn end_address
-//@  ret r
-//@  spec:
-//@    ensures r == self.mod_end,
-//@end
 //@extract multiboot2/src/module.rs :: impl ModuleTag :: fn module_size
 //@  ret r
 //@  spec:
